@@ -25,8 +25,8 @@ use std::sync::atomic::{AtomicBool, Ordering};
 use std::sync::{Arc, Condvar, Mutex};
 use std::time::{Duration, Instant};
 use tantivy::collector::{Count, TopDocs};
-use tantivy::directory::error::{DeleteError, OpenReadError, OpenWriteError};
-use tantivy::directory::{FileHandle, MmapDirectory, OwnedBytes, RamDirectory, WatchCallback, WatchHandle, WritePtr};
+use tantivy::directory::error::{DeleteError, LockError, OpenReadError, OpenWriteError};
+use tantivy::directory::{DirectoryLock, FileHandle, Lock, MmapDirectory, OwnedBytes, RamDirectory, WatchCallback, WatchHandle, WritePtr};
 use tantivy::merge_policy::NoMergePolicy;
 use tantivy::query::{BooleanQuery, Occur, PhraseQuery, Query, TermQuery};
 use tantivy::schema::{Field, IndexRecordOption, Schema, Value as _, FAST, INDEXED, STORED, STRING, TEXT};
@@ -36,6 +36,7 @@ const LOCK: &str = ".tantivy-meta.lock";
 const META: &str = "meta.json";
 const MARK_PUB: &str = ".c05-pub";
 const MARK_GCLIST: &str = ".c05-gclist";
+const MARK_ATTEMPT: &str = ".c05-lock-attempt";
 const WORDS: [&str; 8] = ["apple", "berry", "cedar", "delta", "ember", "fjord", "grove", "heath"];
 
 // ------------------------------------------------------------------------------------------
@@ -57,7 +58,7 @@ struct GState {
 
 #[derive(Clone)]
 struct GDir {
-    inner: RamDirectory,
+    inner: Box<dyn Directory>,
     st: Arc<Mutex<GState>>,
     read_hook: Arc<Mutex<Option<ReadHook>>>,
 }
@@ -106,7 +107,16 @@ fn thread_name() -> String {
 
 impl GDir {
     fn new() -> GDir {
-        GDir { inner: RamDirectory::create(), st: Arc::new(Mutex::new(GState::default())), read_hook: Arc::new(Mutex::new(None)) }
+        GDir::over(Box::new(RamDirectory::create()))
+    }
+    fn over(inner: Box<dyn Directory>) -> GDir {
+        GDir { inner, st: Arc::new(Mutex::new(GState::default())), read_hook: Arc::new(Mutex::new(None)) }
+    }
+    fn pre_hook(&self, kind: OpKind, path: &str) {
+        let hook = self.st.lock().unwrap_or_else(|e| e.into_inner()).hook.clone();
+        if let Some(h) = hook {
+            h(&OpRec { seq: 0, thread: thread_name(), kind, path: path.to_string(), len: 0, ok: true, faulted: false, data: None });
+        }
     }
     fn set_read_hook(&self, h: Option<ReadHook>) {
         *self.read_hook.lock().unwrap_or_else(|e| e.into_inner()) = h;
@@ -189,6 +199,99 @@ impl Directory for GDir {
     }
     fn watch(&self, cb: WatchCallback) -> tantivy::Result<WatchHandle> {
         self.inner.watch(cb)
+    }
+}
+
+/// `GDir` over an `MmapDirectory` in a tempdir: files are really unlinked under open searchers
+/// and META_LOCK is the `flock` of `MmapDirectory::acquire_lock`; acquisition and release are
+/// logged as the creation / deletion of the lock file so that traces read the same.
+#[derive(Clone, Debug)]
+struct MDir(GDir);
+
+struct MGuard {
+    inner: Option<DirectoryLock>,
+    dir: GDir,
+    path: String,
+}
+
+impl Drop for MGuard {
+    fn drop(&mut self) {
+        self.dir.pre_hook(OpKind::Delete, &self.path);
+        let mut g = self.dir.st.lock().unwrap_or_else(|e| e.into_inner());
+        drop(self.inner.take());
+        g.seq += 1;
+        let seq = g.seq;
+        g.log.push(OpRec { seq, thread: thread_name(), kind: OpKind::Delete, path: self.path.clone(), len: 0, ok: true, faulted: false, data: None });
+    }
+}
+
+impl Directory for MDir {
+    fn get_file_handle(&self, path: &Path) -> Result<Arc<dyn FileHandle>, OpenReadError> {
+        self.0.get_file_handle(path)
+    }
+    fn delete(&self, path: &Path) -> Result<(), DeleteError> {
+        self.0.delete(path)
+    }
+    fn exists(&self, path: &Path) -> Result<bool, OpenReadError> {
+        self.0.exists(path)
+    }
+    fn open_write(&self, path: &Path) -> Result<WritePtr, OpenWriteError> {
+        self.0.open_write(path)
+    }
+    fn atomic_read(&self, path: &Path) -> Result<Vec<u8>, OpenReadError> {
+        self.0.atomic_read(path)
+    }
+    fn atomic_write(&self, path: &Path, data: &[u8]) -> std::io::Result<()> {
+        self.0.atomic_write(path, data)
+    }
+    fn sync_directory(&self) -> std::io::Result<()> {
+        self.0.sync_directory()
+    }
+    fn watch(&self, cb: WatchCallback) -> tantivy::Result<WatchHandle> {
+        self.0.watch(cb)
+    }
+    fn acquire_lock(&self, lock: &Lock) -> Result<DirectoryLock, LockError> {
+        let path = lock.filepath.to_string_lossy().to_string();
+        if path != LOCK {
+            return self.0.inner.acquire_lock(lock);
+        }
+        self.0.pre_hook(OpKind::OpenWrite, &path);
+        {
+            // flock blocks silently: leave a trace of the attempt (ignored by the translation)
+            let mut g = self.0.st.lock().unwrap_or_else(|e| e.into_inner());
+            g.seq += 1;
+            let seq = g.seq;
+            g.log.push(OpRec { seq, thread: thread_name(), kind: OpKind::Exists, path: MARK_ATTEMPT.to_string(), len: 0, ok: true, faulted: false, data: None });
+        }
+        let l = self.0.inner.acquire_lock(lock)?;
+        {
+            let mut g = self.0.st.lock().unwrap_or_else(|e| e.into_inner());
+            g.seq += 1;
+            let seq = g.seq;
+            g.log.push(OpRec { seq, thread: thread_name(), kind: OpKind::OpenWrite, path: path.clone(), len: 0, ok: true, faulted: false, data: None });
+        }
+        Ok(DirectoryLock::from(Box::new(MGuard { inner: Some(l), dir: self.0.clone(), path })))
+    }
+}
+
+/// the directory a scenario runs on
+struct Store {
+    g: GDir,
+    mmap: Option<tempfile::TempDir>,
+}
+
+impl Store {
+    fn new(mmap: bool) -> Store {
+        if mmap {
+            let t = tempfile::tempdir().unwrap();
+            let g = GDir::over(Box::new(MmapDirectory::open(t.path()).unwrap()));
+            Store { g, mmap: Some(t) }
+        } else {
+            Store { g: GDir::new(), mmap: None }
+        }
+    }
+    fn dir(&self) -> Box<dyn Directory> {
+        if self.mmap.is_some() { Box::new(MDir(self.g.clone())) } else { Box::new(self.g.clone()) }
     }
 }
 
@@ -980,11 +1083,12 @@ fn check_monotone(ctx: &mut Ctx, what: &str, tr: &Trace, metas: &[MetaRec], per_
     }
 }
 
-fn scenario_concurrent(ctx: &mut Ctx, seed: u64, reloads: usize) {
+fn scenario_concurrent(ctx: &mut Ctx, seed: u64, reloads: usize, mmap: bool) {
     let mut rng = Rng::new(seed);
-    let case = json!({"scenario": "concurrent", "seed": seed, "reloads": reloads});
-    let gdir = GDir::new();
-    let mut w = World::create(Box::new(gdir.clone()));
+    let case = json!({"scenario": "concurrent", "seed": seed, "reloads": reloads, "mmap": mmap});
+    let store = Store::new(mmap);
+    let gdir = store.g.clone();
+    let mut w = World::create(store.dir());
     w.add(&mut rng, 5);
     w.commit();
     let stop = Arc::new(AtomicBool::new(false));
@@ -994,7 +1098,7 @@ fn scenario_concurrent(ctx: &mut Ctx, seed: u64, reloads: usize) {
     let mut handles = vec![];
     for rho in 1..=nreaders as u64 {
         let g = gdir.clone();
-        let idx = if rho == 1 { w.index.clone() } else { Index::open(gdir.clone()).unwrap() };
+        let idx = if rho == 1 { w.index.clone() } else { Index::open(store.dir()).unwrap() };
         let stop = stop.clone();
         let mut trng = rng.fork();
         let h = std::thread::Builder::new().name(format!("c05-rd-{rho}")).spawn(move || {
@@ -1069,6 +1173,7 @@ fn scenario_concurrent(ctx: &mut Ctx, seed: u64, reloads: usize) {
             Err(_) => ctx.report.violation("oracle", "C05:panic", format!("reader thread {rho} panicked"), case.clone()),
         }
     }
+    ctx.report.count(if mmap { "conc:mmap" } else { "conc:ram" });
     let (tr, metas) = check_trace(ctx, "concurrent", &gdir, &gc_livings, &observed, &w, &[], &case);
     check_monotone(ctx, "concurrent", &tr, &metas, &per_reader, &case);
     ctx.report.count_n("conc:metas-written", metas.len() as u64);
@@ -1120,10 +1225,11 @@ impl Pauser {
     }
 }
 
-fn scenario_windows(ctx: &mut Ctx, seed: u64, windows: usize) {
+fn scenario_windows(ctx: &mut Ctx, seed: u64, windows: usize, mmap: bool) {
     let mut rng = Rng::new(seed);
-    let gdir = GDir::new();
-    let mut w = World::create(Box::new(gdir.clone()));
+    let store = Store::new(mmap);
+    let gdir = store.g.clone();
+    let mut w = World::create(store.dir());
     let f = w.f;
     for _ in 0..1 + rng.usize_below(3) {
         { let n_ = 1 + rng.usize_below(8); w.add(&mut rng, n_) };
@@ -1132,13 +1238,14 @@ fn scenario_windows(ctx: &mut Ctx, seed: u64, windows: usize) {
         }
         w.commit();
     }
-    let second = Index::open(gdir.clone()).unwrap();
+    let second = Index::open(store.dir()).unwrap();
     let use_second = rng.chance(2, 3);
+    ctx.report.count(if mmap { "window:mmap-world" } else { "window:ram-world" });
     let ridx = if use_second { second.clone() } else { w.index.clone() };
     let reader: IndexReader = match on_thread("c05-rd-1", { let g = gdir.clone(); move || { let r: tantivy::Result<IndexReader> = ridx.reader_builder().reload_policy(ReloadPolicy::Manual).try_into(); g.mark(MARK_PUB); r } }) {
         Ok(Ok(r)) => r,
         _ => {
-            ctx.report.violation("oracle", "C05:panic", "creating the reader failed".into(), json!({"scenario": "windows", "seed": seed, "windows": windows}));
+            ctx.report.violation("oracle", "C05:panic", "creating the reader failed".into(), json!({"scenario": "windows", "seed": seed, "windows": windows, "mmap": mmap}));
             return;
         }
     };
@@ -1151,7 +1258,7 @@ fn scenario_windows(ctx: &mut Ctx, seed: u64, windows: usize) {
         per_reader.entry(1).or_default().push(o);
     }
     for wi in 0..windows {
-        let case = json!({"scenario": "windows", "seed": seed, "windows": windows, "failing_window": wi});
+        let case = json!({"scenario": "windows", "seed": seed, "windows": windows, "failing_window": wi, "mmap": mmap});
         let nsegs = w.index.searchable_segment_ids().map(|v| v.len()).unwrap_or(1);
         let nops = 3 + 7 * nsegs as u64;
         let at = match rng.below(10) {
@@ -1225,11 +1332,27 @@ fn scenario_windows(ctx: &mut Ctx, seed: u64, windows: usize) {
                 // seen waiting for META_LOCK (GC blocked by the paused reader)
                 let deadline = Instant::now() + Duration::from_secs(15);
                 let mut contended = false;
+                let mut waiting_since: Option<Instant> = None;
                 while !burst_done.load(Ordering::SeqCst) && Instant::now() < deadline {
                     let log = gdir.log();
-                    if log[log_at_start.min(log.len())..].iter().any(|r| r.kind == OpKind::OpenWrite && r.path == LOCK && !r.ok && r.thread != "c05-rd-1") {
+                    let tail = &log[log_at_start.min(log.len())..];
+                    if tail.iter().any(|r| r.kind == OpKind::OpenWrite && r.path == LOCK && !r.ok && r.thread != "c05-rd-1") {
                         contended = true;
                         break;
+                    }
+                    // flock (MmapDirectory): an attempt by the writer side that has not been granted for 10 ms
+                    let pending = tail.iter().rposition(|r| r.path == MARK_ATTEMPT && r.thread != "c05-rd-1").map(|i| {
+                        let t = &tail[i].thread;
+                        !tail[i..].iter().any(|r| r.kind == OpKind::OpenWrite && r.path == LOCK && r.ok && &r.thread == t)
+                    }).unwrap_or(false);
+                    if pending {
+                        let since = *waiting_since.get_or_insert_with(Instant::now);
+                        if since.elapsed() > Duration::from_millis(10) {
+                            contended = true;
+                            break;
+                        }
+                    } else {
+                        waiting_since = None;
                     }
                     std::thread::sleep(Duration::from_millis(2));
                 }
@@ -1284,7 +1407,7 @@ fn scenario_windows(ctx: &mut Ctx, seed: u64, windows: usize) {
             w.commit();
         }
     }
-    let case = json!({"scenario": "windows", "seed": seed, "windows": windows});
+    let case = json!({"scenario": "windows", "seed": seed, "windows": windows, "mmap": mmap});
     let (tr, metas) = check_trace(ctx, "windows", &gdir, &[], &observed, &w, &[], &case);
     check_monotone(ctx, "windows", &tr, &metas, &per_reader, &case);
     if ctx.report.samples.len() < 5 {
@@ -1295,15 +1418,16 @@ fn scenario_windows(ctx: &mut Ctx, seed: u64, windows: usize) {
 // ------------------------------------------------------------------------------------------
 // S5: two overlapping reloads of one reader
 // ------------------------------------------------------------------------------------------
-fn scenario_overlap(ctx: &mut Ctx, seed: u64) {
+fn scenario_overlap(ctx: &mut Ctx, seed: u64, mmap: bool) {
     let mut rng = Rng::new(seed);
-    let case = json!({"scenario": "overlap", "seed": seed});
-    let gdir = GDir::new();
-    let mut w = World::create(Box::new(gdir.clone()));
+    let case = json!({"scenario": "overlap", "seed": seed, "mmap": mmap});
+    let store = Store::new(mmap);
+    let gdir = store.g.clone();
+    let mut w = World::create(store.dir());
     let f = w.f;
     { let n_ = 1 + rng.usize_below(6); w.add(&mut rng, n_) };
     w.commit();
-    let second = Index::open(gdir.clone()).unwrap();
+    let second = Index::open(store.dir()).unwrap();
     let ridx = if rng.chance(1, 2) { second } else { w.index.clone() };
     let reader: IndexReader = match on_thread("c05-rd-5-init", { let g = gdir.clone(); move || { let r: tantivy::Result<IndexReader> = ridx.reader_builder().reload_policy(ReloadPolicy::Manual).try_into(); g.mark(MARK_PUB); r } }) {
         Ok(Ok(r)) => r,
@@ -1564,9 +1688,9 @@ pub fn replay(ctx: &mut Ctx, case: &Value) {
     let seed = case["seed"].as_u64().unwrap_or(1);
     match case["scenario"].as_str().unwrap_or("") {
         "fingerprint" => scenario_fingerprint(ctx, seed, case["mmap"].as_bool().unwrap_or(false), case["steps"].as_u64().unwrap_or(10) as usize),
-        "concurrent" => scenario_concurrent(ctx, seed, case["reloads"].as_u64().unwrap_or(10) as usize),
-        "windows" => scenario_windows(ctx, seed, case["windows"].as_u64().unwrap_or(8) as usize),
-        "overlap" => scenario_overlap(ctx, seed),
+        "concurrent" => scenario_concurrent(ctx, seed, case["reloads"].as_u64().unwrap_or(10) as usize, case["mmap"].as_bool().unwrap_or(false)),
+        "windows" => scenario_windows(ctx, seed, case["windows"].as_u64().unwrap_or(8) as usize, case["mmap"].as_bool().unwrap_or(false)),
+        "overlap" => scenario_overlap(ctx, seed, case["mmap"].as_bool().unwrap_or(false)),
         "oncommit" => scenario_oncommit(ctx, seed, case["free_running"].as_bool().unwrap_or(false)),
         other => ctx.report.notes.push(format!("unknown replay scenario {other}")),
     }
@@ -1597,25 +1721,25 @@ pub fn run(ctx: &mut Ctx) {
         let steps = 10 + (i as usize % 8);
         scenario_fingerprint(ctx, seed, i % 3 == 2, steps);
     }
-    let n_conc = ctx.budget(12, 150);
-    for _ in 0..n_conc {
+    let n_conc = ctx.budget(16, 150);
+    for i in 0..n_conc {
         let seed = ctx.rng.next_u64();
-        scenario_concurrent(ctx, seed, 25);
+        scenario_concurrent(ctx, seed, 25, i % 4 == 3);
     }
-    let n_win = ctx.budget(10, 120);
-    for _ in 0..n_win {
+    let n_win = ctx.budget(16, 120);
+    for i in 0..n_win {
         let seed = ctx.rng.next_u64();
         let k = ctx.budget(10, 20) as usize;
-        scenario_windows(ctx, seed, k);
+        scenario_windows(ctx, seed, k, i % 4 == 3);
     }
     let n_oc = ctx.budget(10, 100);
     for i in 0..n_oc {
         let seed = ctx.rng.next_u64();
         scenario_oncommit(ctx, seed, i % 2 == 1);
     }
-    let n_ov = ctx.budget(6, 60);
-    for _ in 0..n_ov {
+    let n_ov = ctx.budget(8, 60);
+    for i in 0..n_ov {
         let seed = ctx.rng.next_u64();
-        scenario_overlap(ctx, seed);
+        scenario_overlap(ctx, seed, i % 4 == 3);
     }
 }
